@@ -43,7 +43,7 @@ AXES = [
     ('attrs', ['none', '1d', '2d', 'wronglen', 'col', 'row']),
     ('content', ['finite', 'nan_amp', 'inf_wm', 'nan_similar', 'nan_template', 'nan_features',
                  'nan_template_channel']),
-    ('monotone', [True, False]),
+    ('monotone', [True, False, 'ties']),    # ties: equal times are not a decrease
     ('channel_map', ['identity', 'perm', 'sub', 'sub_high']),
     ('sample_rate', [100.0, 25000.0]),   # 7 / 25000 * 25000 truncates to 6: rounding matters
 ]
